@@ -137,6 +137,7 @@ type vRunResult struct {
 }
 
 func vSchedRunOnce(sc *vScenario, prefix []int, keepLog bool) *vRunResult {
+	vResetGlobals()
 	fs := vos.NewMemFS()
 	vos.FS = fs
 	vtime.ResetTickers()
